@@ -245,6 +245,31 @@ def eval_case(case):
                     fail('component_decoder_settings',
                          f'{type(top).__name__}(..., {key}={val!r}) built its {attr} '
                          f'({type(sub).__name__}) with {key}={sub.params[key]!r}')
+    # ... and a BP-OSD decoder builds each of its ldpc decoders (lazily, on the
+    # first decode) with the options it was given and reports
+    for sim in sims:
+        top = sim.decoder
+        if type(top).__name__ != 'BeliefPropagationOSDDecoder' or top.code.n > 200:
+            continue
+        with runner.quiet():
+            top.decode(np.zeros(top.code.stabilizer_matrix.shape[0], dtype=int))
+        for attr in ('x_decoder', 'z_decoder', 'decoder'):
+            sub = getattr(top, attr, None)
+            if sub is None:
+                continue
+            want_method = top.params.get('bp_method', 'minimum_sum')
+            if want_method in ('minimum_sum', 'product_sum') and sub.bp_method != want_method:
+                fail('component_decoder_settings',
+                     f'BeliefPropagationOSDDecoder(bp_method={want_method!r}) built its {attr} '
+                     f'with bp_method={sub.bp_method!r}')
+            if int(sub.max_iter) != int(top.params['max_bp_iter']):
+                fail('component_decoder_settings',
+                     f'BeliefPropagationOSDDecoder(max_bp_iter={top.params["max_bp_iter"]!r}) built its '
+                     f'{attr} with max_iter={sub.max_iter!r}')
+            if int(sub.osd_order) > int(top.params['osd_order']):
+                fail('component_decoder_settings',
+                     f'BeliefPropagationOSDDecoder(osd_order={top.params["osd_order"]!r}) built its '
+                     f'{attr} with osd_order={sub.osd_order!r}')
     # expand_input_ranges / get_runs agree in size
     if 'ranges' in spec and not isinstance(spec['ranges'], list):
         n_exp = len(expand_input_ranges(json.loads(json.dumps(spec['ranges']))))
@@ -336,7 +361,9 @@ def decoder_block(draw, cls, in_runs):
     options = {
         'BeliefPropagationOSDDecoder': [{'max_bp_iter': 10, 'osd_order': 0},
                                         {'max_bp_iter': 1000, 'osd_order': 10},
-                                        {'channel_update': True}, {'osd_order': 3}],
+                                        {'channel_update': True}, {'osd_order': 3},
+                                        {'bp_method': 'product_sum'},
+                                        {'max_bp_iter': 5, 'osd_order': 2, 'bp_method': 'product_sum'}],
         'MatchingDecoder': [{'error_type': 'X'}, {'error_type': 'Z'}, {'error_type': None}],
         'RotatedSweepMatchDecoder': [{'max_rounds': 4}, {'max_rounds': 8}, {'max_rounds': 1}],
         'MemoryBeliefPropagationDecoder': [{'max_bp_iter': 2}, {'max_bp_iter': 3, 'alpha': 0.5},
